@@ -503,49 +503,50 @@ example : findIdx (slotHit 129540 90 255 false) [{ free := false, tp := true, pg
 /-! ## library sender and library receiver over a loss-free in-order channel -/
 
 /-- **End to end (RTS/CTS), partial.** Node A hands a transport-flagged message of 9..223 bytes for the address of node B to
-`SendMsg` on its first device `da`; B's first device `db` owns that address. Each node may have any number of further devices
-(`Lead`: they have nothing pending and no device is in an address claim). Both nodes are quiet, A has no transfer pending, B has a
-free receive slot and may hold the message (PGN known or filter off), no information retry is waiting (`InfoIdle`). The channel
-`wire` carries every frame, in order, into the other node's receive queue. A schedule is a list of delays `(dB, dA)`: in each
-`round` B polls (`ParseMessages`) `dB` ms after its previous poll, then A polls `dA` ms after its previous poll - any `dB`,
-any `dA < 100` (first one `< 50`: the sender's timeouts), the two clocks need not agree. Then `SendMsg` succeeds and after at
-most 33 rounds of ANY such schedule B's handler has been called exactly once - with the PGN, A's address as source, B's address
-as destination, the length and exactly the payload bytes - A's transfer is over (nothing pending, `StartSendTPMessage` is free
-again) and no frame is left in flight. Polls in between with nothing to receive change nothing (`poll_idle`).
+`SendMsg` on ANY of its devices, index `ia` (device `da`); ANY device `ib` of B (`db`) owns that address. `Lead n i d`: device
+`i` of `n` is `d`, no device before it has the same address (so `FindSourceDeviceIndex` finds it), the node's other devices
+have nothing pending, and no device is in an address claim. Both nodes are quiet for the acting device, A has no transfer
+pending, B has a free receive slot and may hold the message (PGN known or filter off), no information retry is waiting
+(`InfoIdle`). The channel `wire` carries every frame, in order, into the other node's receive queue. A schedule is a list of
+delays `(dB, dA)`: in each `round` B polls (`ParseMessages`) `dB` ms after its previous poll, then A polls `dA` ms after its
+previous poll - any `dB`, any `dA < 100` (first one `< 50`: the sender's timeouts), the two clocks need not agree. Then
+`SendMsg` succeeds and after at most 33 rounds of ANY such schedule B's handler has been called exactly once - with the PGN,
+A's address as source, B's address as destination, the length and exactly the payload bytes - A's transfer is over (nothing
+pending, `StartSendTPMessage` is free again) and no frame is left in flight. Polls in between with nothing to receive change
+nothing (`poll_idle`).
 
-What is missing for the full statement of DESIGN (hence `_partial`): the acting devices are the nodes' devices with index 0
-(the lemmas are written for that index; the other devices are only required to be idle); A and B poll strictly alternately -
-a schedule with extra polls reduces to these by `poll_idle` only as long as the sender's timer is not due at the extra polls, and
-the reduction (a commutation of idle polls over the exchange, carrying the arming time separately from the clock) is not
-formalised; the BAM composition is `C10_end_to_end_bam_partial`. -/
-theorem C10_end_to_end_partial (a b : Node) (da db : Dev) (m : Msg) (ds : List (Nat × Nat))
-    (hda : Lead a da) (hdb : Lead b db) (hqa : Quiet a.s 0) (hqb : Quiet b.s 0)
-    (haIdle : (a.tp 0).pend.pgn = 0) (haSent : a.s.drv.sent = []) (haRx : a.rxq = [])
-    (hbIdle : (b.tp 0).hasPending = false) (hbSent : b.s.drv.sent = []) (hbRx : b.rxq = []) (hbOut : b.out = [])
-    (haInfo : InfoIdle a 0) (hbInfo : InfoIdle b 0)
+What is missing for the full statement of DESIGN (hence `_partial`): A and B poll strictly alternately - a schedule with extra
+polls reduces to these by `poll_idle` only as long as the sender's timer is not due at the extra polls, and the reduction (a
+commutation of idle polls over the exchange, carrying the arming time separately from the clock) is not formalised. The BAM
+composition is `C10_end_to_end_bam_partial`. -/
+theorem C10_end_to_end_partial (a b : Node) (ia ib : Nat) (da db : Dev) (m : Msg) (ds : List (Nat × Nat))
+    (hda : Lead a ia da) (hdb : Lead b ib db) (hqa : Quiet a.s ia) (hqb : Quiet b.s ib)
+    (haIdle : (a.tp ia).pend.pgn = 0) (haSent : a.s.drv.sent = []) (haRx : a.rxq = [])
+    (hbIdle : (b.tp ib).hasPending = false) (hbSent : b.s.drv.sent = []) (hbRx : b.rxq = []) (hbOut : b.out = [])
+    (haInfo : InfoIdle a ia) (hbInfo : InfoIdle b ib)
     (hbFree : ∃ sl ∈ b.slots, sl.free = true) (hknown : (checkKnown m.pgn).1 = true ∨ ¬ b.onlyKnown = true)
     (htp : m.tp = true) (h9 : 9 ≤ m.len) (h223 : m.len ≤ 223) (hdata : m.len ≤ m.data.length)
     (hdst : m.dst = db.source) (hlow : m.pgn &&& 0xff = 0) (hp0 : m.pgn ≠ 0) (hp24 : m.pgn < 2^24)
     (hid : n2kToCanId m.prio m.pgn da.source m.dst ≠ 0)
     (hlen : 33 ≤ ds.length) (hfirst : ∀ p, ds.head? = some p → p.2 < 50) (hall : ∀ p ∈ ds, p.2 < 100)
     (h64 : a.s.now + totalA ds + 100 < M64) :
-    (sendMsgTP a m (some 0)).2 = true ∧
+    (sendMsgTP a m (some ia)).2 = true ∧
     ∃ r, r ≤ 33 ∧
-      (rounds (ds.take r) ((sendMsgTP a m (some 0)).1, b)).2.out =
+      (rounds (ds.take r) ((sendMsgTP a m (some ia)).1, b)).2.out =
         [{ pgn := m.pgn, src := da.source, dst := db.source, prio := 7, len := m.len, tp := true, data := m.data.take m.len }] ∧
-      ((rounds (ds.take r) ((sendMsgTP a m (some 0)).1, b)).1.tp 0).pend.pgn = 0 ∧
-      ((rounds (ds.take r) ((sendMsgTP a m (some 0)).1, b)).1.tp 0).hasPending = false ∧
-      (rounds (ds.take r) ((sendMsgTP a m (some 0)).1, b)).1.s.drv.sent = [] ∧
-      (rounds (ds.take r) ((sendMsgTP a m (some 0)).1, b)).2.s.drv.sent = [] ∧
-      (rounds (ds.take r) ((sendMsgTP a m (some 0)).1, b)).1.rxq = [] ∧
-      (rounds (ds.take r) ((sendMsgTP a m (some 0)).1, b)).2.rxq = [] := by
+      ((rounds (ds.take r) ((sendMsgTP a m (some ia)).1, b)).1.tp ia).pend.pgn = 0 ∧
+      ((rounds (ds.take r) ((sendMsgTP a m (some ia)).1, b)).1.tp ia).hasPending = false ∧
+      (rounds (ds.take r) ((sendMsgTP a m (some ia)).1, b)).1.s.drv.sent = [] ∧
+      (rounds (ds.take r) ((sendMsgTP a m (some ia)).1, b)).2.s.drv.sent = [] ∧
+      (rounds (ds.take r) ((sendMsgTP a m (some ia)).1, b)).1.rxq = [] ∧
+      (rounds (ds.take r) ((sendMsgTP a m (some ia)).1, b)).2.rxq = [] := by
   have hdb251 : db.source ≤ 251 := hdb.src hqb
   have hstart := sendMsgTP_start a m da hqa hda.dev0 hlow hp0 hid htp h9 (by omega) haIdle
   rw [haSent, haRx, List.nil_append] at hstart
   rw [hstart]
   refine ⟨rfl, ?_⟩
   obtain ⟨j, a0, hj, ha0⟩ := start_slot_exists b.slots m.pgn da.source db.source hbFree
-  have hL : LinkHyp a b da db (pendMsg m da) j (b.slots.map (freeSess da.source db.source)) a0 :=
+  have hL : LinkHyp a b ia ib da db (pendMsg m da) j (b.slots.map (freeSess da.source db.source)) a0 :=
     ⟨hda, hdb, hqa, hqb, hbIdle, haInfo, hbInfo, hdst, h9, h223, hdata, hp24, hp0, hknown, rfl, hj, ha0⟩
   have hb : b = b.upd b.tp b.slots [] [] [] := by
     have := (upd_self b).symm
@@ -568,12 +569,12 @@ theorem C10_end_to_end_partial (a b : Node) (da db : Dev) (m : Msg) (ds : List (
   refine ⟨r + 1, by omega, ?_⟩
   have hfirst' := round_first hL a.s.now b.s.now p.1 p.2 hp50 (by omega)
   rw [show (pendMsg m da).dst = m.dst from rfl] at hfirst'
-  have hpair : (a.upd (txTp a (pendMsg m da) 0 a.s.now 50) a.slots a.out [cmFrame da.source m.dst (announceBytes 16 (pendMsg m da))] [], b)
-      = ((atTime a a.s.now).upd (txTp a (pendMsg m da) 0 a.s.now 50) a.slots a.out [cmFrame da.source m.dst (announceBytes 16 (pendMsg m da))] [],
+  have hpair : (a.upd (txTp ia a (pendMsg m da) 0 a.s.now 50) a.slots a.out [cmFrame da.source m.dst (announceBytes 16 (pendMsg m da))] [], b)
+      = ((atTime a a.s.now).upd (txTp ia a (pendMsg m da) 0 a.s.now 50) a.slots a.out [cmFrame da.source m.dst (announceBytes 16 (pendMsg m da))] [],
          (atTime b b.s.now).upd b.tp b.slots [] [] []) := congrArg (Prod.mk _) hb
   have hR' : rounds ((p :: ds').take (r + 1))
-        (a.upd (txTp a (pendMsg m da) 0 a.s.now 50) a.slots a.out [cmFrame da.source m.dst (announceBytes 16 (pendMsg m da))] [], b)
-      = ((atTime a tA').upd (doneTp a (pendMsg m da) (tpPacketCount m.len)) a.slots a.out [] [],
+        (a.upd (txTp ia a (pendMsg m da) 0 a.s.now 50) a.slots a.out [cmFrame da.source m.dst (announceBytes 16 (pendMsg m da))] [], b)
+      = ((atTime a tA').upd (doneTp ia a (pendMsg m da) (tpPacketCount m.len)) a.slots a.out [] [],
          (atTime b tB').upd b.tp S'' [delivered (pendMsg m da) da.source db.source] [] []) := by
     rw [hpair]
     simp only [List.take_succ_cons, rounds]
@@ -585,31 +586,31 @@ theorem C10_end_to_end_partial (a b : Node) (da db : Dev) (m : Msg) (ds : List (
   · simp [doneTp]
 
 /-- the hypotheses of `C10_end_to_end_partial` are satisfiable: the example node talks to a copy of itself at address 30 -/
-example : ∃ (a b : Node) (da db : Dev) (m : Msg) (ds : List (Nat × Nat)), 33 ≤ ds.length ∧ (∀ p, ds.head? = some p → p.2 < 50) ∧
-    (∀ p ∈ ds, p.2 < 100) ∧ a.s.now + totalA ds + 100 < M64 ∧ Lead a da ∧ Lead b db ∧ 2 ≤ a.s.devs.length ∧ 2 ≤ b.s.devs.length ∧ Quiet a.s 0 ∧ Quiet b.s 0 ∧
-    (a.tp 0).pend.pgn = 0 ∧ a.s.drv.sent = [] ∧ a.rxq = [] ∧ (b.tp 0).hasPending = false ∧ b.s.drv.sent = [] ∧ b.rxq = [] ∧
-    b.out = [] ∧ InfoIdle a 0 ∧ InfoIdle b 0 ∧ (∃ sl ∈ b.slots, sl.free = true) ∧ ((checkKnown m.pgn).1 = true ∨ ¬ b.onlyKnown = true) ∧
+example : ∃ (a b : Node) (ia ib : Nat) (da db : Dev) (m : Msg) (ds : List (Nat × Nat)), 33 ≤ ds.length ∧ (∀ p, ds.head? = some p → p.2 < 50) ∧
+    (∀ p ∈ ds, p.2 < 100) ∧ a.s.now + totalA ds + 100 < M64 ∧ Lead a ia da ∧ Lead b ib db ∧ 0 < ia ∧ 0 < ib ∧ Quiet a.s ia ∧ Quiet b.s ib ∧
+    (a.tp ia).pend.pgn = 0 ∧ a.s.drv.sent = [] ∧ a.rxq = [] ∧ (b.tp ib).hasPending = false ∧ b.s.drv.sent = [] ∧ b.rxq = [] ∧
+    b.out = [] ∧ InfoIdle a ia ∧ InfoIdle b ib ∧ (∃ sl ∈ b.slots, sl.free = true) ∧ ((checkKnown m.pgn).1 = true ∨ ¬ b.onlyKnown = true) ∧
     m.tp = true ∧ 9 ≤ m.len ∧ m.len ≤ 223 ∧ m.len ≤ m.data.length ∧ m.dst = db.source ∧ m.pgn &&& 0xff = 0 ∧ m.pgn ≠ 0 ∧
     m.pgn < 2^24 ∧ n2kToCanId m.prio m.pgn da.source m.dst ≠ 0 := by
-  refine ⟨exNodeA, exNodeB, exDev, exDevB, exMsg,
+  refine ⟨exNodeA, exNodeB, 1, 1, exDevA, exDevB, { exMsg with dst := 31 },
     List.replicate 33 (7, 20), by decide, by decide, by decide, by decide,
     exLeadA, exLeadB, by decide, by decide, exQuietA, exQuietB, by decide, rfl, rfl,
     by decide, rfl, rfl, rfl, ⟨rfl, rfl⟩, ⟨rfl, rfl⟩, ⟨{}, by simp [exNodeB, exNode], rfl⟩, by decide, by decide, by decide, by decide, by decide, by decide, by decide,
     by decide, by decide, by decide⟩
 
 /-- **End to end (BAM), partial.** Node A hands a transport-flagged message of 9..223 bytes for the global address to
-`SendMsg` on its first device; node B listens (both may have further, idle devices: `Lead`). Both are quiet, A has nothing pending, B has a free receive slot (free slots
+`SendMsg` on any of its devices (index `ia`); node B listens with any device `ib` leading (further devices idle: `Lead`). Both are quiet, A has nothing pending, B has a free receive slot (free slots
 carry no CTS obligation - `FreeMessage` and the constructor reset it) and may hold the message. Schedule as in
 `C10_end_to_end_partial`, but A polls more than `bamGap` ms (≥ 50; and less than 2^31 ms) after its previous poll: the pacing of
 `C10_bam_pacing` then lets exactly one data packet out per poll. After at most 33 rounds of ANY such schedule B's handler has
 been called exactly once with the PGN, A's address, destination 255, the length and exactly the payload; A's transfer is over;
 nothing is in flight, and B never sent a frame (`C10_receiver_bam`). Missing for the full statement: as in
-`C10_end_to_end_partial` (acting device index 0, strictly alternating polls). -/
-theorem C10_end_to_end_bam_partial (a b : Node) (da db : Dev) (m : Msg) (ds : List (Nat × Nat))
-    (hda : Lead a da) (hdb : Lead b db) (hqa : Quiet a.s 0) (hqb : Quiet b.s 0)
-    (haIdle : (a.tp 0).pend.pgn = 0) (haSent : a.s.drv.sent = []) (haRx : a.rxq = [])
-    (hbIdle : (b.tp 0).hasPending = false) (hbSent : b.s.drv.sent = []) (hbRx : b.rxq = []) (hbOut : b.out = [])
-    (haInfo : InfoIdle a 0) (hbInfo : InfoIdle b 0)
+`C10_end_to_end_partial` (strictly alternating polls). -/
+theorem C10_end_to_end_bam_partial (a b : Node) (ia ib : Nat) (da db : Dev) (m : Msg) (ds : List (Nat × Nat))
+    (hda : Lead a ia da) (hdb : Lead b ib db) (hqa : Quiet a.s ia) (hqb : Quiet b.s ib)
+    (haIdle : (a.tp ia).pend.pgn = 0) (haSent : a.s.drv.sent = []) (haRx : a.rxq = [])
+    (hbIdle : (b.tp ib).hasPending = false) (hbSent : b.s.drv.sent = []) (hbRx : b.rxq = []) (hbOut : b.out = [])
+    (haInfo : InfoIdle a ia) (hbInfo : InfoIdle b ib)
     (hbFree : ∃ sl ∈ b.slots, sl.free = true) (hbInv : ∀ sl ∈ b.slots, sl.free = true → sl.reqCTS = 0)
     (hknown : (checkKnown m.pgn).1 = true ∨ ¬ b.onlyKnown = true)
     (htp : m.tp = true) (h9 : 9 ≤ m.len) (h223 : m.len ≤ 223) (hdata : m.len ≤ m.data.length)
@@ -617,23 +618,23 @@ theorem C10_end_to_end_bam_partial (a b : Node) (da db : Dev) (m : Msg) (ds : Li
     (hid : n2kToCanId m.prio m.pgn da.source m.dst ≠ 0)
     (hgap : 50 ≤ a.bamGap) (hlen : 33 ≤ ds.length) (hall : ∀ p ∈ ds, a.bamGap + 1 ≤ p.2 ∧ p.2 < INT32_MAX)
     (h64 : a.s.now + totalA ds + 100 < M64) :
-    (sendMsgTP a m (some 0)).2 = true ∧
+    (sendMsgTP a m (some ia)).2 = true ∧
     ∃ r, r ≤ 33 ∧
-      (rounds (ds.take r) ((sendMsgTP a m (some 0)).1, b)).2.out =
+      (rounds (ds.take r) ((sendMsgTP a m (some ia)).1, b)).2.out =
         [{ pgn := m.pgn, src := da.source, dst := 255, prio := 7, len := m.len, tp := true, data := m.data.take m.len }] ∧
-      ((rounds (ds.take r) ((sendMsgTP a m (some 0)).1, b)).1.tp 0).pend.pgn = 0 ∧
-      ((rounds (ds.take r) ((sendMsgTP a m (some 0)).1, b)).1.tp 0).hasPending = false ∧
-      (rounds (ds.take r) ((sendMsgTP a m (some 0)).1, b)).1.s.drv.sent = [] ∧
-      (rounds (ds.take r) ((sendMsgTP a m (some 0)).1, b)).2.s.drv.sent = [] ∧
-      (rounds (ds.take r) ((sendMsgTP a m (some 0)).1, b)).1.rxq = [] ∧
-      (rounds (ds.take r) ((sendMsgTP a m (some 0)).1, b)).2.rxq = [] := by
+      ((rounds (ds.take r) ((sendMsgTP a m (some ia)).1, b)).1.tp ia).pend.pgn = 0 ∧
+      ((rounds (ds.take r) ((sendMsgTP a m (some ia)).1, b)).1.tp ia).hasPending = false ∧
+      (rounds (ds.take r) ((sendMsgTP a m (some ia)).1, b)).1.s.drv.sent = [] ∧
+      (rounds (ds.take r) ((sendMsgTP a m (some ia)).1, b)).2.s.drv.sent = [] ∧
+      (rounds (ds.take r) ((sendMsgTP a m (some ia)).1, b)).1.rxq = [] ∧
+      (rounds (ds.take r) ((sendMsgTP a m (some ia)).1, b)).2.rxq = [] := by
   have hstart := sendMsgTP_start_bam a m da hqa hda.dev0 hlow hp0 hid htp h9 hdst haIdle
   rw [haSent, haRx, List.nil_append] at hstart
   rw [hstart]
   refine ⟨rfl, ?_⟩
   obtain ⟨j, a0, hj, ha0⟩ := start_slot_exists b.slots m.pgn da.source 255 hbFree
   have hreq := found_slot_silent b.slots m.pgn da.source j a0 hbInv hj ha0
-  have hL : BamHyp a b da db (pendMsg m da) j (b.slots.map (freeSess da.source 255)) a0 :=
+  have hL : BamHyp a b ia ib da db (pendMsg m da) j (b.slots.map (freeSess da.source 255)) a0 :=
     ⟨hda, hdb, hqa, hqb, hbIdle, haInfo, hbInfo, hdst, h9, h223, hdata, hp24, hp0, hknown, rfl, hj, ha0, hreq⟩
   have hb : b = b.upd b.tp b.slots [] [] [] := by
     have := (upd_self b).symm
@@ -652,12 +653,12 @@ theorem C10_end_to_end_bam_partial (a b : Node) (da db : Dev) (m : Msg) (ds : Li
     (fun q hq => hall q (by simp [hq])) (by omega)
   refine ⟨r + 1, by omega, ?_⟩
   have hfirst' := roundB_first hL a.s.now b.s.now p.1 p.2 ⟨by have := hp51.1; omega, hp51.2⟩ (by omega)
-  have hpair : (a.upd (txTp a (pendMsg m da) 0 a.s.now 50) a.slots a.out [cmFrame da.source 255 (announceBytes 32 (pendMsg m da))] [], b)
-      = ((atTime a a.s.now).upd (txTp a (pendMsg m da) 0 a.s.now 50) a.slots a.out [cmFrame da.source 255 (announceBytes 32 (pendMsg m da))] [],
+  have hpair : (a.upd (txTp ia a (pendMsg m da) 0 a.s.now 50) a.slots a.out [cmFrame da.source 255 (announceBytes 32 (pendMsg m da))] [], b)
+      = ((atTime a a.s.now).upd (txTp ia a (pendMsg m da) 0 a.s.now 50) a.slots a.out [cmFrame da.source 255 (announceBytes 32 (pendMsg m da))] [],
          (atTime b b.s.now).upd b.tp b.slots [] [] []) := congrArg (Prod.mk _) hb
   have hR' : rounds ((p :: ds').take (r + 1))
-        (a.upd (txTp a (pendMsg m da) 0 a.s.now 50) a.slots a.out [cmFrame da.source 255 (announceBytes 32 (pendMsg m da))] [], b)
-      = ((atTime a tA').upd (doneTp a (pendMsg m da) (tpPacketCount m.len)) a.slots a.out [] [],
+        (a.upd (txTp ia a (pendMsg m da) 0 a.s.now 50) a.slots a.out [cmFrame da.source 255 (announceBytes 32 (pendMsg m da))] [], b)
+      = ((atTime a tA').upd (doneTp ia a (pendMsg m da) (tpPacketCount m.len)) a.slots a.out [] [],
          (atTime b tB').upd b.tp S'' [delivered (pendMsg m da) da.source 255] [] []) := by
     rw [hpair]
     simp only [List.take_succ_cons, rounds]
@@ -668,15 +669,15 @@ theorem C10_end_to_end_bam_partial (a b : Node) (da db : Dev) (m : Msg) (ds : Li
   · simp [doneTp]
   · simp [doneTp]
 
-example : ∃ (a b : Node) (da db : Dev) (m : Msg) (ds : List (Nat × Nat)), 50 ≤ a.bamGap ∧ 33 ≤ ds.length ∧
+example : ∃ (a b : Node) (ia ib : Nat) (da db : Dev) (m : Msg) (ds : List (Nat × Nat)), 50 ≤ a.bamGap ∧ 33 ≤ ds.length ∧
     (∀ p ∈ ds, a.bamGap + 1 ≤ p.2 ∧ p.2 < INT32_MAX) ∧
-    a.s.now + totalA ds + 100 < M64 ∧ Lead a da ∧ Lead b db ∧ 2 ≤ a.s.devs.length ∧ 2 ≤ b.s.devs.length ∧ Quiet a.s 0 ∧ Quiet b.s 0 ∧
-    (a.tp 0).pend.pgn = 0 ∧ a.s.drv.sent = [] ∧ a.rxq = [] ∧ (b.tp 0).hasPending = false ∧ b.s.drv.sent = [] ∧ b.rxq = [] ∧
-    b.out = [] ∧ InfoIdle a 0 ∧ InfoIdle b 0 ∧ (∃ sl ∈ b.slots, sl.free = true) ∧ (∀ sl ∈ b.slots, sl.free = true → sl.reqCTS = 0) ∧
+    a.s.now + totalA ds + 100 < M64 ∧ Lead a ia da ∧ Lead b ib db ∧ 0 < ia ∧ 0 < ib ∧ Quiet a.s ia ∧ Quiet b.s ib ∧
+    (a.tp ia).pend.pgn = 0 ∧ a.s.drv.sent = [] ∧ a.rxq = [] ∧ (b.tp ib).hasPending = false ∧ b.s.drv.sent = [] ∧ b.rxq = [] ∧
+    b.out = [] ∧ InfoIdle a ia ∧ InfoIdle b ib ∧ (∃ sl ∈ b.slots, sl.free = true) ∧ (∀ sl ∈ b.slots, sl.free = true → sl.reqCTS = 0) ∧
     ((checkKnown m.pgn).1 = true ∨ ¬ b.onlyKnown = true) ∧
     m.tp = true ∧ 9 ≤ m.len ∧ m.len ≤ 223 ∧ m.len ≤ m.data.length ∧ m.dst = 255 ∧ m.pgn &&& 0xff = 0 ∧ m.pgn ≠ 0 ∧
     m.pgn < 2^24 ∧ n2kToCanId m.prio m.pgn da.source m.dst ≠ 0 := by
-  refine ⟨exNodeA, exNodeB, exDev, exDevB,
+  refine ⟨exNodeA, exNodeB, 1, 1, exDevA, exDevB,
     { exMsg with dst := 255 }, List.replicate 33 (7, 60), by decide, by decide, by decide, by decide,
     exLeadA, exLeadB, by decide, by decide, exQuietA, exQuietB, rfl, rfl,
     rfl, rfl, rfl, rfl, rfl, ⟨rfl, rfl⟩, ⟨rfl, rfl⟩, ⟨{}, by simp [exNodeB, exNode], rfl⟩, ?_, by decide, by decide, by decide, by decide, by decide, by decide,
